@@ -431,13 +431,16 @@ def _execute(case, res, tmp):
                 # the user removes only the dataset's own layer: its subset layers stay until the subsets disappear
                 v['v'].remove_layer(d)
                 v['given'] = [g for g in v['given'] if g is not d]
-                v.setdefault('orphans', []).extend(d.subsets)
+                # ... those subset layers that exist: a subset whose creation is still queued in an open hub window has none
+                # yet and gets none later (the viewer adds subset layers only for datasets it shows)
+                shown = [la.layer for la in v['v'].layers]
+                v.setdefault('orphans', []).extend(s_ for s_ in d.subsets if any(s_ is x for x in shown))
                 res.probe('data_layer_removed_alone')
             elif k == 'v_close':
                 if not viewers:
                     continue
                 v = viewers.pop(op[1] % len(viewers))
-                v['v'].close(warn=False) if v['kind'] != 'generic' else v['v'].close()
+                v['v'].close()
                 if v['v'] in w.app._viewers:
                     w.app._viewers.remove(v['v'])
                 res.probe('viewer_closed')
